@@ -1013,7 +1013,18 @@ impl Prop for C01 {
 				));
 				return v;
 			}
-			if Self::count_ctx(run, w) > nctx {
+			// a private context by itself reserves nothing; it is still junk if a call that
+			// was refused for its arguments leaves one. Not judged when the simulator made a
+			// write report failure *after* it had taken effect (a ".post" fault point): the
+			// record is there by construction of the fault.
+			let failed_after_commit = step
+				.fault
+				.as_ref()
+				.map(|f| f.point.ends_with(".post") && out.fault_fired)
+				.unwrap_or(false);
+			if failed_after_commit && Self::count_ctx(run, w) > nctx {
+				run.cov.not_judged("context_written_by_a_commit_that_then_reported_failure");
+			} else if Self::count_ctx(run, w) > nctx {
 				v.push(run.viol(
 					"failure_atomicity",
 					"failed_call_saved_context",
